@@ -1,4 +1,4 @@
-(* C17 — the structural part of prog_ok follows from source-level conditions (src_wf, depth-aware zero-factor guard). *)
+(* C17 — the structural part of prog_ok follows from src_wf. *)
 From Coq Require Import ZArith QArith List Bool Lia ZifyBool Setoid.
 Require Import QV.C17.Model QV.C17.Spec QV.C17.Proofs QV.C17.ProofsVM QV.C17.SimDefs QV.C17.ProofsBuild.
 Import ListNotations.
@@ -22,56 +22,19 @@ Qed.
 Lemma walk_fs_length : forall rs coefs i, length (walk_fs rs coefs i) = length rs.
 Proof. induction rs as [|[a b] rs IH]; intros; cbn; auto. Qed.
 
-Lemma skipn_cons_nth : forall i (l : list Q) c cs, skipn i l = c :: cs -> nth_coef l i = c /\ skipn (S i) l = cs.
-Proof.
-  induction i as [|i IH]; intros [|x l] c cs H; cbn in H; try discriminate.
-  - inversion H; subst. split; reflexivity.
-  - apply IH in H as [H1 H2]. split; auto.
-Qed.
-
-Lemma strip_cons_nonnil : forall f r, strip_zeros r <> [] -> strip_zeros (f :: r) <> [].
-Proof. intros f r H. cbn. destruct (strip_zeros r); [contradiction|discriminate]. Qed.
-Lemma strip_head_nonnil : forall f r, Qeq_bool f 0 = false -> strip_zeros (f :: r) <> [].
-Proof. intros f r H. cbn. destruct (strip_zeros r); [rewrite H|]; discriminate. Qed.
-
-Lemma walk_fs_nz : forall rs coefs i,
-  existsb (fun c => negb (Qeq_bool c 0)) (firstn (length rs) (skipn i coefs)) = true ->
-  Forall (fun r : Z * Z => snd r <> 0) rs -> strip_zeros (walk_fs rs coefs i) <> [].
-Proof.
-  induction rs as [|[start step] rs IH]; intros coefs i H HF; cbn in H; [discriminate|].
-  destruct (skipn i coefs) as [|c cs] eqn:Es; cbn in H; [discriminate|].
-  destruct (skipn_cons_nth _ _ _ _ Es) as [Hc Hs]. apply Forall_cons_iff in HF as [Hstep HF']. cbn in Hstep.
-  cbn [walk_fs]. rewrite Hc. apply orb_prop in H as [H|H].
-  - apply negb_true_iff in H. rewrite H. apply strip_head_nonnil.
-    destruct (Qeq_bool (inject_Z step * c) 0) eqn:E; auto. apply Qeq_bool_iff in E.
-    apply Qmult_integral in E as [E|E].
-    + exfalso. apply Hstep. unfold Qeq in E. cbn in E. lia.
-    + apply Qeq_bool_iff in E. congruence.
-  - apply strip_cons_nonnil. apply IH; auto. rewrite Hs. exact H.
-Qed.
-
-Lemma mk_key_nonnil : forall fs, strip_zeros fs <> [] -> key_eqb (mk_key fs) [] = false.
-Proof.
-  intros fs H. destruct (key_eqb (mk_key fs) []) eqn:E; auto. apply key_eqb_spec in E. unfold mk_key in E.
-  destruct (strip_zeros fs); [contradiction|discriminate].
-Qed.
-
 Lemma build_volts_ok : forall rs vs nvs, build_volts rs vs = Ok nvs ->
-  forallb (fun v => match v with VAff _ cs => nz_within (length rs) cs | _ => true end) vs = true ->
-  Forall (fun r : Z * Z => snd r <> 0) rs ->
   length nvs = length vs /\ hold_ok (length rs) nvs = true.
 Proof.
-  intros rs. induction vs as [|v vs IH]; intros nvs H HG HF; cbn in H.
+  intros rs. induction vs as [|v vs IH]; intros nvs H; cbn in H.
   - inversion H; subst. split; reflexivity.
   - destruct (build_volt rs v) as [x|] eqn:Ev; cbn in H; [|discriminate].
     destruct (build_volts rs vs) as [r|] eqn:Er; cbn in H; [|discriminate]. inversion H; subst.
-    cbn in HG. apply andb_prop in HG as [HG1 HG2]. destruct (IH r eq_refl HG2 HF) as [L O]. split; [cbn; lia|].
+    destruct (IH r eq_refl) as [L O]. split; [cbn; lia|].
     destruct v; cbn in Ev.
     + inversion Ev; subst. cbn. exact O.
     + inversion Ev; subst. cbn. exact O.
     + destruct (aff_walk rs coefs 0 base []) as [b incs] eqn:Ew. inversion Ev; subst. cbn [hold_ok].
-      apply aff_walk_fs in Ew. cbn in Ew. subst incs. rewrite walk_fs_length, Nat.eqb_refl, O. cbn.
-      rewrite mk_key_nonnil; [reflexivity|]. apply walk_fs_nz; auto.
+      apply aff_walk_fs in Ew. cbn in Ew. subst incs. rewrite walk_fs_length, Nat.eqb_refl, O. reflexivity.
 Qed.
 
 Lemma nodes_ok_app : forall reps C d a b, nodes_ok reps C d (a ++ b) = nodes_ok reps C d a && nodes_ok reps C d b.
@@ -85,38 +48,35 @@ Lemma range_len_nonneg : forall a b c, 0 <= range_len a b c.
 Proof. intros. unfold range_len. destruct (0 <? c); [lia|]. destruct (c <? 0); lia. Qed.
 
 Definition ok_stmt (C : nat) (s : src) : Prop :=
-  forall rs nodes, build s rs = Ok nodes -> src_wf C s = true -> guard_C17_zero_factor_depth (length rs) s = true ->
-    Forall (fun r : Z * Z => snd r <> 0) rs -> nodes_ok true C (length rs) nodes = true.
+  forall rs nodes, build s rs = Ok nodes -> src_wf C s = true -> nodes_ok true C (length rs) nodes = true.
 
 Lemma build_ok : forall C s, ok_stmt C s.
 Proof.
-  intros C. induction s as [dur vs|l IHl|c body IHb|a b c body IHb] using src_ind2; intros rs nodes H HW HG HF.
+  intros C. induction s as [dur vs|l IHl|c body IHb|a b c body IHb] using src_ind2; intros rs nodes H HW.
   - cbn in H. destruct (Qpos_b dur).
     + destruct (build_volts rs vs) as [nvs|] eqn:Ev; cbn in H; [|discriminate]. inversion H; subst.
-      cbn in HW, HG. destruct (build_volts_ok _ _ _ Ev HG HF) as [L O]. cbn. rewrite L, HW, O. reflexivity.
+      cbn in HW. destruct (build_volts_ok _ _ _ Ev) as [L O]. cbn. rewrite L, HW, O. reflexivity.
     + inversion H; subst. reflexivity.
-  - rewrite build_seq in H. revert nodes H HW HG.
-    induction IHl as [|x l Hx Hl IH]; intros nodes H HW HG.
+  - rewrite build_seq in H. revert nodes H HW.
+    induction IHl as [|x l Hx Hl IH]; intros nodes H HW.
     + cbn in H. inversion H; subst. reflexivity.
     + cbn in H. destruct (build x rs) as [na|] eqn:Ea; cbn in H; [|discriminate].
       fold (bseq l rs) in H. destruct (bseq l rs) as [nb|] eqn:Eb; cbn in H; [|discriminate]. inversion H; subst.
-      cbn in HW, HG. apply andb_prop in HW as [HW1 HW2]. apply andb_prop in HG as [HG1 HG2].
-      rewrite nodes_ok_app. rewrite (Hx rs na Ea HW1 HG1 HF). cbn. apply IH; auto.
+      cbn in HW. apply andb_prop in HW as [HW1 HW2].
+      rewrite nodes_ok_app. rewrite (Hx rs na Ea HW1). cbn. apply IH; auto.
   - cbn [build] in H. destruct (c <=? 0) eqn:Ec.
     + inversion H; subst. reflexivity.
     + destruct (build body rs) as [blocks|] eqn:Eb; cbn in H; [|discriminate].
-      cbn in HW, HG. specialize (IHb rs blocks Eb HW HG HF).
+      cbn in HW. specialize (IHb rs blocks Eb HW).
       destruct blocks as [|n0 blocks]; inversion H; subst; [reflexivity|].
       cbn [nodes_ok] in IHb. apply andb_prop in IHb as [I1 I2].
       cbn [nodes_ok node_ok]. rewrite nodes_ok_local, I1, I2. cbn. assert (X : (1 <=? c) = true) by lia. rewrite X. reflexivity.
   - cbn [build] in H. destruct (range_len a b c =? 0) eqn:En.
     + inversion H; subst. reflexivity.
     + destruct (build body (rs ++ [(a, c)])) as [cmds|] eqn:Eb; cbn in H; [|discriminate].
-      cbn in HW, HG. apply andb_prop in HW as [HW1 HW2].
-      assert (HF' : Forall (fun r : Z * Z => snd r <> 0) (rs ++ [(a, c)])).
-      { apply Forall_app. split; auto. constructor; [cbn; lia|constructor]. }
+      cbn in HW. apply andb_prop in HW as [HW1 HW2].
       assert (HL : length (rs ++ [(a, c)]) = S (length rs)) by (rewrite app_length; cbn; lia).
-      specialize (IHb (rs ++ [(a, c)]) cmds Eb HW2). rewrite HL in IHb. specialize (IHb HG HF').
+      specialize (IHb (rs ++ [(a, c)]) cmds Eb HW2). rewrite HL in IHb.
       destruct cmds as [|n0 cmds]; inversion H; subst; [reflexivity|].
       cbn [nodes_ok] in IHb. apply andb_prop in IHb as [I1 I2].
       cbn [nodes_ok node_ok]. rewrite nodes_ok_local, I1, I2. cbn.
@@ -124,10 +84,9 @@ Proof.
 Qed.
 
 Lemma built_ok_of_source : forall C s,
-  src_wf C s = true -> guard_C17_zero_factor_depth 0 s = true -> guard_C17_key_collision s = true ->
-  guard_C17_built_ok true C s = true.
+  src_wf C s = true -> guard_C17_key_collision s = true -> guard_C17_built_ok true C s = true.
 Proof.
-  intros C s HW HZ HK. unfold guard_C17_built_ok, guard_C17_key_collision in *. unfold build_program in *.
+  intros C s HW HK. unfold guard_C17_built_ok, guard_C17_key_collision in *. unfold build_program in *.
   destruct (build s []) as [prog|] eqn:E; auto. unfold prog_ok. rewrite HK, andb_true_r.
-  apply (build_ok C s [] prog E HW HZ). constructor.
+  apply (build_ok C s [] prog E HW).
 Qed.
